@@ -27,6 +27,7 @@ func init() {
 			{"C02.fill", "buffer refill counts every read, uses a fresh buffer and keeps the tail", 3, c02Fill},
 			{"C02.sync", "worker hand-over only on equal start and size; null skip-ahead only inside a proven null run; Advance matches the emitted null chunks", 3, c02Sync},
 			{"C02.order", "chunk lists are assembled in worker order / job order", 3, c02Order},
+			{"C02.null-chunk-consistent", "the null chunk's ID is the digest of exactly its Data, a buffer of its own", 2, func(c *Ctx) { c.nullChunkConsistent() }},
 		},
 	})
 }
